@@ -125,12 +125,14 @@ func stress(procs, rounds int, seed uint64) {
 			out.Flush()
 		}
 		r := rng.next()
-		kind := int(r % 4)
-		r >>= 2
+		kind := int(r % 5)
+		r >>= 3
 		var dur time.Duration
 		switch kind {
 		case 0:
 			dur = time.Hour
+		case 4:
+			dur = time.Duration(10+r%4*20) * time.Microsecond
 		default:
 			switch r % 4 {
 			case 0:
@@ -156,11 +158,24 @@ func stress(procs, rounds int, seed uint64) {
 			prev.e2 = b2i(poll(prev.ch))
 		}
 		h := &handle{ch: ch, round: i, kind: kind, e2: -1}
+		t0 := time.Now()
 		for g := r % 4; g > 0; g-- {
 			runtime.Gosched()
 		}
 		r >>= 2
 		switch kind {
+		case 4:
+			// cancel as close as possible to the expiry: the fire/cancel race
+			target := dur + time.Duration(int64(r%16)-8)*500*time.Nanosecond
+			for time.Since(t0) < target {
+				if r&16 != 0 {
+					runtime.Gosched()
+				}
+			}
+			h.e0 = b2i(poll(ch))
+			cancel()
+			h.cancelled = true
+			h.e1 = b2i(poll(ch))
 		case 2:
 			// wait for the elapse
 			t := time.NewTimer(10 * time.Second)
